@@ -509,6 +509,34 @@ fn c13_container<T: KS, C: Vmer>(out: &mut Out, bs: &[u8], c: &C, exts_probe: Op
             out.case("s.kmer_at", l(vec![nu(k), dna(bs), nu(n_ - k)]), dna(&bases_of(&q)));
         }
     }
+    // the iterator under skipping: nth(i) on a fresh iterator, skip(i).next(), and nth(a) followed by nth(b); skips of
+    // K and more, and skips landing exactly on the last k-mer / one past it, are always among them
+    {
+        let cnt = if n_ >= k { n_ - k + 1 } else { 0 };
+        let mut is: Vec<usize> = vec![0, 1, k, k + 1, cnt.saturating_sub(1), cnt, cnt + 3];
+        if cnt > k + 1 {
+            is.push(cnt - 2);
+        }
+        is.sort();
+        is.dedup();
+        let opt_kmer = |o: Option<T>| match o {
+            Some(q) => l(vec![dna(&bases_of(&q))]),
+            None => l(vec![]),
+        };
+        for &i in &is {
+            out.case("s.iter_nth", l(vec![nu(k), dna(bs), nu(i)]), opt_kmer(c.iter_kmers::<T>().nth(i)));
+            out.case("s.iter_nth", l(vec![nu(k), dna(bs), nu(i)]), opt_kmer(c.iter_kmers::<T>().skip(i).next()));
+            if i >= 1 {
+                let a = i / 2;
+                let b2 = i - a - 1;
+                let mut it = c.iter_kmers::<T>();
+                let first = it.nth(a);
+                if first.is_some() {
+                    out.case("s.iter_nth", l(vec![nu(k), dna(bs), nu(i)]), opt_kmer(it.nth(b2)));
+                }
+            }
+        }
+    }
     if let Some(e) = exts_probe {
         let items: Vec<V> = c
             .iter_kmer_exts::<T>(e)
